@@ -20,7 +20,10 @@ Spec:   spec/MofCompile.tla      requirement machine (Total, PositionInside,
         F class production that fails, then (good call, same compiler) valid
         MOF depending on a class of that name which is on the search path,
         G namespace entered by pragma (objects present, compiler caches not),
-        then any qualifier/class/instance production.
+        then any qualifier/class/instance production, H class production
+        that fails, then a LATER compile call (same compiler, same
+        repository) that names the class although no valid declaration of it
+        exists anywhere (rejected or accepted, never another exception).
         Systematic dimensions: every optional part of every production
         present/absent in every combination (`opt*` variants); lexeme classes
         of the include file name (NUL, surrogate, over-long, below a file..).
@@ -61,6 +64,14 @@ LEGACY = [
      "MOFWBEMConnection.CreateClass stores the class before it looks the "
      "superclass up: 'class X : X' is accepted, an instance of it recurses "
      "for ever (RecursionError)", True),
+    ("MofCompileImplLegacySuperLater.cfg", "ImplRefinesReq",
+     "MOFWBEMConnection.CreateClass stores the class first and rejects "
+     "'class X : X' afterwards: the class stays in the store, 'instance of "
+     "X' in a LATER compile call recurses for ever (RecursionError)", True),
+    ("MofCompileImplLegacyAncestry.cfg", "ImplRefinesReq",
+     "MOFWBEMConnection.CreateClass checks only that the superclass exists: "
+     "a class re-declared as a subclass of its own subclass is accepted, an "
+     "instance of it recurses for ever (RecursionError)", False),
     ("MofCompileImplLegacyEmb.cfg", "Reusable",
      "embedded_objects not reset in a finally clause: compiler unusable "
      "after a failed embedded compile", True),
@@ -185,7 +196,8 @@ def part_of(ses):
     Returns (part, helper production, focus production)."""
     m, i = ses["main"], ses["inc"]
     if ses.get("good"):
-        return "F", ses["good"][0], m[0]
+        return ("H" if ses["good"][0]["v"].endswith("_undeclared") else "F",
+                ses["good"][0], m[0])
     if len(m) == 2 and not i and pkey(m[0]) == NSFULL:
         return "G", m[0], m[1]
     if len(m) == 2 and not i and pkey(m[0]) in NESTED and \
@@ -214,7 +226,7 @@ def focus_of(ses):
 
 def focus_name(ses):
     part = part_of(ses)
-    if part and part[0] == "F":
+    if part and part[0] in ("F", "H"):
         _, h, f = part
         return "%s>%s.%s/%s" % (pname(f), h["k"], h["v"], NAMESPELL[h["a"]])
     if part and part[0] == "G":
@@ -366,6 +378,43 @@ def select(ctx, sessions, quick):
         for s, h in cands:
             add(s, *F_COMBOS[n_f % len(F_COMBOS)])
             n_f += 1
+    # ---- part H: a class production that fails, then a later compile call
+    # that names the class without any valid declaration of it.  Never on
+    # mockapi.  quick: for every dependency defect the two uses that resolve
+    # the ancestry of the class (instance of it; subclass + instance of the
+    # subclass), each on a repository whose class store the compile itself
+    # fills (MOFWBEMConnection, stub on top of it), one of them also on the
+    # mock repository, and one other use; one use per sibling shape, for half
+    # of the value defects; thorough: all, the ancestry uses also on
+    # MOFWBEMConnection
+    n_h = 0
+    own = [c for c in F_COMBOS if c[1] != "faked"]
+    groups = {}
+    for s, h, f in parts.get("H", []):
+        groups.setdefault((pkey(f), f["a"]), []).append((s, h))
+    for g in sorted(groups):
+        cands = sorted(groups[g], key=lambda c: (c[1]["v"], c[1]["a"]))
+        anc = [c for c in cands
+               if c[1]["v"] in ("of_undeclared", "subinst_undeclared")]
+        if quick:
+            if g[0][1] == "dependency" and g[1] == 0:
+                pick = [rng.choice([c for c in anc if c[1]["v"] == v])
+                        for v in ("of_undeclared", "subinst_undeclared")]
+                for i, (s, h) in enumerate(pick):
+                    add(s, *own[(n_h + i) % len(own)])
+                add(pick[n_h % 2][0], *rng.choice(
+                    [c for c in F_COMBOS if c[1] == "faked"]))
+                cands = rng.sample([c for c in cands if c not in anc], 1)
+            elif g[0][1] == "dependency" or rng.random() < 0.5:
+                cands = rng.sample(cands, 1)
+            else:
+                cands = []
+        for s, h in cands:
+            add(s, *F_COMBOS[n_h % len(F_COMBOS)])
+            if not quick and (s, h) in anc and \
+                    F_COMBOS[n_h % len(F_COMBOS)][1] != "mofwbem":
+                add(s, "string", "mofwbem")
+            n_h += 1
     # ---- part G: the namespace pragma other_full, then a production.
     # quick: every dependency defect, half of the valid variants, a third of
     # the value defects; thorough: all, on two api/handle pairs
